@@ -84,6 +84,12 @@ Definition m_step (m : mode) (st : st10) (op : op10) : obs10 * st10 :=
       | Ok g => (mkobs 0 [], {| pool := p ++ [Some g]; maps := ms |})
       | Err e => (mkobs (code_of e) [], {| pool := p ++ [None]; maps := ms |})
       end
+  | ODropMap mi =>
+      match get ms mi with
+      | Some _ => (mkobs 0 [], {| pool := p; maps := drop_slot ms (N.to_nat mi) |})
+      | None => (mkobs 8 [], st)
+      end
+  | ODropRemoved _ => (mkobs 0 [], st)
   | OFromRangesF l =>
       let no c := (mkobs c [], {| pool := p ++ dead (length l); maps := ms ++ [None] |}) in
       match collect_ranges_files mkreg (nlen p) (with_files l) with
@@ -142,6 +148,8 @@ Definition op_of (t : tok) : option op10 :=
   | TL [4; m; b; s] => if in64 b && in64 s then Some (ORemove m b s) else None
   | TL [5; m; a] => if in64 a then Some (OFind m a) else None
   | TL [6] => Some ONewMap
+  | TL [10; m] => if m <? 65536 then Some (ODropMap m) else None
+  | TL [11; k] => if k <? 65536 then Some (ODropRemoved k) else None
   | TL [7; f; b; s] => if in64 b && in64 s && tag_ok f then Some (ONewVia f b s) else None
   | TL (9 :: l) => match triples_of l with
                    | Some ts => if forallb (fun t => in64 (fst (fst t)) && in64 (snd (fst t)) && tag_ok (snd t)) ts
